@@ -231,3 +231,135 @@ Proof.
     + rewrite !combine_map, map_app. apply sum_where_app.
     + apply cnt_app.
 Qed.
+
+(* ------------------------------------------------------------------------------------------ *)
+(* binary batches                                                                              *)
+(* ------------------------------------------------------------------------------------------ *)
+Definition bin_cat (b1 b2 : binbatch) : binbatch := (fst b1 ++ fst b2, snd b1 ++ snd b2).
+Definition bin_ok (b : binbatch) : Prop := bin_valid b = true.
+Lemma bin_ok_cat b1 b2 : bin_ok b1 -> bin_ok b2 -> bin_ok (bin_cat b1 b2).
+Proof.
+  unfold bin_ok, bin_valid, bin_cat. cbn [fst snd]. intros V1 V2. apply andb_prop in V1 as [L1 T1]. apply andb_prop in V2 as [L2 T2].
+  apply Nat.eqb_eq in L1. apply Nat.eqb_eq in L2. rewrite (forallb_app' _ _ _ T1 T2), andb_true_r. apply Nat.eqb_eq. rewrite !app_length. lia.
+Qed.
+Lemma bin_pairs_cat t b1 b2 : bin_ok b1 -> bin_pairs t (bin_cat b1 b2) = bin_pairs t b1 ++ bin_pairs t b2.
+Proof.
+  unfold bin_ok, bin_valid, bin_pairs, bin_cat. cbn [fst snd]. intros V1. apply andb_prop in V1 as [L1 _]. apply Nat.eqb_eq in L1.
+  rewrite map_app. apply combine_app. rewrite map_length. exact L1.
+Qed.
+Ltac bin_beta_cat := intros O1 O2; cbv beta delta [binacc_beta binprec_beta binrec_beta binf1_beta]; cbv zeta;
+  rewrite (bin_pairs_cat _ _ _ O1); cbn [bin_cat snd];
+  rewrite ?nadd_arr2, ?nadd_arr3, !nadd_zsc, !map_app, !sumZ_app, ?lenZ_app; try reflexivity; repeat (f_equal; try lia).
+Lemma binacc_beta_cat t b1 b2 : bin_ok b1 -> bin_ok b2 -> binacc_beta t (bin_cat b1 b2) = nadd (binacc_beta t b1) (binacc_beta t b2).
+Proof. bin_beta_cat. Qed.
+Lemma binprec_beta_cat t b1 b2 : bin_ok b1 -> bin_ok b2 -> binprec_beta t (bin_cat b1 b2) = nadd (binprec_beta t b1) (binprec_beta t b2).
+Proof. bin_beta_cat. Qed.
+Lemma binrec_beta_cat t b1 b2 : bin_ok b1 -> bin_ok b2 -> binrec_beta t (bin_cat b1 b2) = nadd (binrec_beta t b1) (binrec_beta t b2).
+Proof. bin_beta_cat. Qed.
+Lemma binf1_beta_cat t b1 b2 : bin_ok b1 -> bin_ok b2 -> binf1_beta t (bin_cat b1 b2) = nadd (binf1_beta t b1) (binf1_beta t b2).
+Proof. bin_beta_cat. Qed.
+Lemma bincm_beta_cat c b1 b2 : bin_ok b1 -> bin_ok b2 -> bincm_beta c (bin_cat b1 b2) = nadd (bincm_beta c b1) (bincm_beta c b2).
+Proof.
+  intros O1 O2. unfold bincm_beta. rewrite (bin_pairs_cat _ _ _ O1), !coo_dense_spec, nadd_arr1, nadd_zmat_tab.
+  do 3 f_equal. apply map_ext. intros i. apply map_ext. intros j. apply cell_app.
+Qed.
+
+(* ------------------------------------------------------------------------------------------ *)
+(* multilabel / top-k multilabel batches                                                       *)
+(* ------------------------------------------------------------------------------------------ *)
+Definition ml_cat (b1 b2 : mlbatch) : mlbatch := (fst b1 ++ fst b2, snd b1 ++ snd b2).
+Definition ml_ok (w : nat) (b : mlbatch) : Prop := ml_shape_ok b = true /\ width (fst b) = w.
+Lemma ml_len b : ml_shape_ok b = true -> List.length (fst b) = List.length (snd b).
+Proof. unfold ml_shape_ok. intros V. repeat (apply andb_prop in V as [V _]). apply Nat.eqb_eq in V. exact V. Qed.
+Lemma ml_ok_cat w b1 b2 : ml_ok w b1 -> ml_ok w b2 -> ml_ok w (ml_cat b1 b2).
+Proof.
+  intros [V1 W1] [V2 W2]. pose proof (ml_len _ V1) as L1. pose proof (ml_len _ V2) as L2. unfold ml_ok, ml_shape_ok, ml_cat in *. cbn [fst snd] in *.
+  apply andb_prop in V1 as [V1 B1]. apply andb_prop in V1 as [V1 Y1]. apply andb_prop in V1 as [V1 X1]. apply andb_prop in V1 as [_ P1].
+  apply andb_prop in V2 as [V2 B2]. apply andb_prop in V2 as [V2 Y2]. apply andb_prop in V2 as [V2 X2]. apply andb_prop in V2 as [_ P2].
+  assert (Hw : width (fst b1 ++ fst b2) = width (fst b1)).
+  { destruct (fst b1) as [|x r1]; [cbn in P1; discriminate|reflexivity]. }
+  rewrite Hw. split; [|exact W1]. rewrite W1 in *. rewrite W2 in *. unfold rect in *.
+  rewrite P1, !forallb_app' by assumption. rewrite !andb_true_r. apply Nat.eqb_eq. rewrite !app_length. lia.
+Qed.
+Lemma ml_rows_cat t b1 b2 : ml_shape_ok b1 = true -> ml_rows t (ml_cat b1 b2) = ml_rows t b1 ++ ml_rows t b2.
+Proof. intros V1. unfold ml_rows, ml_cat. cbn [fst snd]. rewrite combine_app by (apply ml_len; exact V1). apply map_app. Qed.
+Lemma ml_update_app cr r1 r2 :
+  ml_update cr (r1 ++ r2) = (fst (ml_update cr r1) + fst (ml_update cr r2), snd (ml_update cr r1) + snd (ml_update cr r2)).
+Proof. destruct cr; cbn [ml_update fst snd]; rewrite !map_app, !sumZ_app, ?lenZ_app; f_equal; lia. Qed.
+Lemma mlacc_beta_cat c w b1 b2 : ml_ok w b1 -> ml_ok w b2 -> mlacc_beta c (ml_cat b1 b2) = nadd (mlacc_beta c b1) (mlacc_beta c b2).
+Proof.
+  intros [V1 _] _. unfold mlacc_beta. cbv zeta. rewrite (ml_rows_cat _ _ _ V1), ml_update_app, nadd_arr2, !nadd_zsc. reflexivity.
+Qed.
+
+Definition tk_cat (b1 b2 : tkbatch) : tkbatch :=
+  ((tk_scores b1 ++ tk_scores b2, tk_targets b1 ++ tk_targets b2), tk_sel b1 ++ tk_sel b2).
+Definition tk_ok (c : tk_cfg) (w : nat) (b : tkbatch) : Prop := tk_valid c b = true /\ width (tk_scores b) = w.
+Lemma tk_ok_cat c w b1 b2 : tk_ok c w b1 -> tk_ok c w b2 -> tk_ok c w (tk_cat b1 b2).
+Proof.
+  intros [V1 W1] [V2 W2]. unfold tk_ok, tk_valid in *.
+  apply andb_prop in V1 as [V1 A1]. apply andb_prop in V1 as [V1 L1]. apply andb_prop in V1 as [S1 K1].
+  apply andb_prop in V2 as [V2 A2]. apply andb_prop in V2 as [V2 L2]. apply andb_prop in V2 as [S2 K2].
+  destruct (ml_ok_cat w (tk_scores b1, tk_targets b1) (tk_scores b2, tk_targets b2)) as [Hs Hw]; [split; assumption|split; assumption|].
+  unfold ml_cat in Hs, Hw. cbn [fst snd] in Hs, Hw.
+  unfold tk_cat, tk_scores, tk_targets, tk_sel in *. cbn [fst snd] in *. split; [|exact Hw].
+  rewrite Hs, Hw. rewrite W1 in K1. rewrite K1. cbn [andb]. apply Nat.eqb_eq in L1. apply Nat.eqb_eq in L2.
+  rewrite combine_app by (symmetry; exact L1). rewrite forallb_app' by assumption. rewrite andb_true_r. apply Nat.eqb_eq. rewrite !app_length. lia.
+Qed.
+Lemma tk_rows_cat c b1 b2 : tk_valid c b1 = true -> tk_rows (tk_cat b1 b2) = tk_rows b1 ++ tk_rows b2.
+Proof.
+  intros V1. unfold tk_valid in V1. apply andb_prop in V1 as [V1 _]. apply andb_prop in V1 as [V1 L1]. apply andb_prop in V1 as [S1 _].
+  pose proof (ml_len _ S1) as L0. cbn [fst snd] in L0. apply Nat.eqb_eq in L1.
+  unfold tk_rows, tk_cat, tk_scores, tk_targets, tk_sel in *. cbn [fst snd].
+  rewrite (combine_app _ _ _ _ L0), combine_app by (rewrite combine_length, <- L0, Nat.min_id; symmetry; exact L1). apply map_app.
+Qed.
+Lemma tkacc_beta_cat c w b1 b2 : tk_ok c w b1 -> tk_ok c w b2 -> tkacc_beta c (tk_cat b1 b2) = nadd (tkacc_beta c b1) (tkacc_beta c b2).
+Proof.
+  intros [V1 _] _. unfold tkacc_beta. cbv zeta. rewrite (tk_rows_cat c _ _ V1), ml_update_app, nadd_arr2, !nadd_zsc. reflexivity.
+Qed.
+
+(* ------------------------------------------------------------------------------------------ *)
+(* the three laws, per class; the two consequences                                             *)
+(* ------------------------------------------------------------------------------------------ *)
+Definition cat_laws (S : AddSpec) (c : acfg S) (ok : abatch S -> Prop) (bcat : abatch S -> abatch S -> abatch S) : Prop :=
+  (forall b, ok b -> avalid S c b = true) /\
+  (forall b1 b2, ok b1 -> ok b2 -> ok (bcat b1 b2)) /\
+  (forall b1 b2, ok b1 -> ok b2 -> abeta S c (bcat b1 b2) = nadd (abeta S c b1) (abeta S c b2)).
+
+Theorem class_eq_fn_of_laws S c ok bcat : cat_laws S c ok bcat ->
+  forall b rest, ok b -> Forall ok rest ->
+  class_run S c (b :: rest) = fn_of S c (cat_all S bcat b rest) /\ avalid S c (cat_all S bcat b rest) = true.
+Proof.
+  intros [H1 [H2 H3]] b rest Hb Hr. split.
+  - apply (class_eq_fn_nonempty S c ok bcat H1 H2 H3); assumption.
+  - apply (cat_all_ok S c ok bcat H1 H2 H3); assumption.
+Qed.
+Theorem batching_of_laws S c ok bcat : cat_laws S c ok bcat ->
+  forall b rest b' rest', ok b -> Forall ok rest -> ok b' -> Forall ok rest' ->
+  abeta S c (cat_all S bcat b rest) = abeta S c (cat_all S bcat b' rest') ->
+  class_run S c (b :: rest) = class_run S c (b' :: rest').
+Proof. intros [H1 [H2 H3]]. apply (batching_invariant_nonempty S c ok bcat H1 H2 H3). Qed.
+
+Lemma mcacc_laws c w : cat_laws mcacc_spec c (acc_ok c w) mc_cat.
+Proof. split; [intros b [V _]; exact V|]. split; [apply acc_ok_cat|apply acc_beta_cat]. Qed.
+Lemma mcprec_laws c w : cat_laws mcprec_spec c (prf_ok c w) mc_cat.
+Proof. split; [intros b [V _]; exact V|]. split; [apply prf_ok_cat|apply prec_beta_cat]. Qed.
+Lemma mcrec_laws c w : cat_laws mcrec_spec c (prf_ok c w) mc_cat.
+Proof. split; [intros b [V _]; exact V|]. split; [apply prf_ok_cat|apply rec_beta_cat]. Qed.
+Lemma mcf1_laws c w : cat_laws mcf1_spec c (prf_ok c w) mc_cat.
+Proof. split; [intros b [V _]; exact V|]. split; [apply prf_ok_cat|apply f1_beta_cat]. Qed.
+Lemma mccm_laws c : cat_laws mccm_spec c (cm_ok c) mc_cat.
+Proof. split; [intros b V; exact V|]. split; [apply cm_ok_cat|apply cm_beta_cat]. Qed.
+Lemma binacc_laws t : cat_laws binacc_spec t bin_ok bin_cat.
+Proof. split; [intros b V; exact V|]. split; [apply bin_ok_cat|apply binacc_beta_cat]. Qed.
+Lemma binprec_laws t : cat_laws binprec_spec t bin_ok bin_cat.
+Proof. split; [intros b V; exact V|]. split; [apply bin_ok_cat|apply binprec_beta_cat]. Qed.
+Lemma binrec_laws t : cat_laws binrec_spec t bin_ok bin_cat.
+Proof. split; [intros b V; exact V|]. split; [apply bin_ok_cat|apply binrec_beta_cat]. Qed.
+Lemma binf1_laws t : cat_laws binf1_spec t bin_ok bin_cat.
+Proof. split; [intros b V; exact V|]. split; [apply bin_ok_cat|apply binf1_beta_cat]. Qed.
+Lemma bincm_laws c : cat_laws bincm_spec c bin_ok bin_cat.
+Proof. split; [intros b V; exact V|]. split; [apply bin_ok_cat|apply bincm_beta_cat]. Qed.
+Lemma mlacc_laws c w : cat_laws mlacc_spec c (ml_ok w) ml_cat.
+Proof. split; [intros b [V _]; exact V|]. split; [apply ml_ok_cat|apply mlacc_beta_cat]. Qed.
+Lemma tkacc_laws c w : cat_laws tkacc_spec c (tk_ok c w) tk_cat.
+Proof. split; [intros b [V _]; exact V|]. split; [apply tk_ok_cat|apply tkacc_beta_cat]. Qed.
